@@ -427,3 +427,23 @@ func vHrefGraphs() (int, []string) {
 //@   props C07 C18
 //@   nopanic
 //@   modifies nothing
+
+// SVG 1.1 §7.8 preserveAspectRatio: user space is mapped onto the viewport so that, with `none`, the viewBox
+// exactly fills it; otherwise the scale is uniform (the smaller ratio for meet, the larger for slice) and the
+// min / mid / max edges or centres of the viewBox and of the viewport coincide on each axis.
+//@ func (preserveAspectRatio).resolveTransforms
+//@   props C18
+//@   nopanic
+//@   modifies nothing
+//@   let vb = *viewbox
+//@   ensures[no-viewbox] viewbox == nil ==> scaleX == 1 && scaleY == 1 && translateX == 0 && translateY == 0
+//@   ensures[none-fills] viewbox != nil && pr.none && vb.Width != 0 && vb.Height != 0 ==> scaleX * vb.Width == width && scaleY * vb.Height == height
+//@   ensures[uniform] viewbox != nil && !pr.none ==> scaleX == scaleY
+//@   ensures[meet-or-slice] viewbox != nil && !pr.none && vb.Width > 0 && vb.Height > 0 ==> (scaleX * vb.Width == width || scaleX * vb.Height == height) && (pr.slice ==> scaleX * vb.Width >= width && scaleX * vb.Height >= height) && (!pr.slice ==> scaleX * vb.Width <= width && scaleX * vb.Height <= height)
+//@   ensures[x-min] viewbox != nil && translate == nil && pr.xPosition != "mid" && pr.xPosition != "max" ==> translateX + vb.X*scaleX == 0
+//@   ensures[x-mid] viewbox != nil && translate == nil && pr.xPosition == "mid" ==> 2*(translateX + vb.X*scaleX) + vb.Width*scaleX == width
+//@   ensures[x-max] viewbox != nil && translate == nil && pr.xPosition == "max" ==> translateX + (vb.X + vb.Width)*scaleX == width
+//@   ensures[y-min] viewbox != nil && translate == nil && pr.yPosition != "mid" && pr.yPosition != "max" ==> translateY + vb.Y*scaleY == 0
+//@   ensures[y-mid] viewbox != nil && translate == nil && pr.yPosition == "mid" ==> 2*(translateY + vb.Y*scaleY) + vb.Height*scaleY == height
+//@   ensures[y-max] viewbox != nil && translate == nil && pr.yPosition == "max" ==> translateY + (vb.Y + vb.Height)*scaleY == height
+//@   ensures[marker] viewbox != nil && translate != nil ==> translateX == translate.x - vb.X*scaleX && translateY == translate.y - vb.Y*scaleY
